@@ -37,15 +37,23 @@ ASSUMPTIONS = [
     "force rows whose numerical-fallback stencil (h=1e-6) crosses a piecewise boundary are not compared",
 ]
 REQUIRED = {"special:root_on_grid": 8, "special:decay_tail": 8, "route:api_class": 15, "route:writePotentials": 15, "route:potable": 25,
-            "blocks>=2": 20, "force:numeric_fallback": 10, "reversed_labels": 5}
+            "blocks>=2": 20, "force:numeric_fallback": 10, "reversed_labels": 5, "rewrite:2_writes": 2, "defaults:nr_given": 1, "defaults:cutoff_given": 1, "defaults:none_given": 1}
 FMT = ("f", 8)
 
 
 @st.composite
-def _case(draw, nr_max, min_pots=1, max_pots=4):
-    route = draw(st.sampled_from(["api_class", "writePotentials", "potable", "potable"]))
+def _case(draw, nr_max, min_pots=1, max_pots=4, defaults=False):
+    route = "potable" if defaults else draw(st.sampled_from(["api_class", "writePotentials", "potable", "potable"]))
     m = draw(gen.pair_model(max_pots, 2, pycallables=(route != "potable"), min_pots=min_pots))
     cutoff, nr = draw(gen.grid_rc(nr_max))
+    if route == "potable":
+        # [Tabulation] items may be left out: documented defaults cutoff 10.0, nr 1001
+        given = draw(st.sampled_from(["nr", "cutoff", "none"])) if defaults else "both"
+        if given in ("nr", "none"):
+            cutoff = 10.0
+        if given in ("cutoff", "none"):
+            nr = 1001
+        m["given"] = given
     m.update({"cutoff": cutoff, "nr": nr, "route": route,
               "container": draw(st.sampled_from(["list", "list", "tuple", "iterator", "generator"]))})
     return m
@@ -58,6 +66,19 @@ def _special(draw, kind):
     return m
 
 
+@st.composite
+def _rewrite(draw):
+    """one tabulation object written several times while a stateful energy callable is re-parametrised in between
+    (a fitting loop): every file must be the table of the energy function as it is when that file is written"""
+    m = draw(gen.pair_model(3, 2, pycallables=True))
+    cutoff, nr = draw(gen.grid_rc(40))
+    ks = draw(st.lists(st.sampled_from([1.0, 2.0, -1.0, 0.5, 3.0, 0.1, -2.5]), min_size=2, max_size=3).filter(
+        lambda l: all(a != b for a, b in zip(l, l[1:]))))
+    m.update({"cutoff": cutoff, "nr": nr, "route": "api_class", "container": "list",
+              "rewrite": {"which": draw(st.integers(0, len(m["pair"]) - 1)), "ks": ks}})
+    return m
+
+
 def strategy(tier):
     return _case(60 if tier == "quick" else 400)
 
@@ -65,8 +86,8 @@ def strategy(tier):
 def strata(tier):
     if tier == "quick":
         return [("one", _case(60, 1, 1), 4), ("several", _case(60, 2, 4), 5), ("large", _case(400), 1),
-                ("root_on_grid", _special("root_on_grid"), 1), ("decay_tail", _special("decay_tail"), 1)]
-    return [("one", _case(60, 1, 1), 3), ("several", _case(60, 2, 4), 3), ("medium", _case(400), 3),
+                ("root_on_grid", _special("root_on_grid"), 1), ("decay_tail", _special("decay_tail"), 1), ("rewrite", _rewrite(), 1), ("defaults", _case(60, 1, 2, True), 1)]
+    return [("rewrite", _rewrite(), 1), ("defaults", _case(60, 1, 2, True), 1), ("one", _case(60, 1, 1), 3), ("several", _case(60, 2, 4), 3), ("medium", _case(400), 3),
             ("large", _case(5000, 1, 2), 1), ("root_on_grid", _special("root_on_grid"), 1),
             ("decay_tail", _special("decay_tail"), 1)]
 
@@ -81,14 +102,19 @@ class CliFailed(Exception):
     pass
 
 
+def _grid(case):
+    g = case.get("given", "both")
+    return dict((k, case[k]) for k in ("cutoff", "nr") if g in ("both", k))
+
+
 def produce(case):
     """returns text written by the chosen route"""
     route = case["route"]
     if route == "potable":
-        txt = pairtab.potable_text(case, "LAMMPS", {"cutoff": case["cutoff"], "nr": case["nr"]})
+        txt = pairtab.potable_text(case, "LAMMPS", _grid(case))
         return libroute.write_text(libroute.read_text(txt)), txt
     if route == "cli":
-        txt = pairtab.potable_text(case, "LAMMPS", {"cutoff": case["cutoff"], "nr": case["nr"]})
+        txt = pairtab.potable_text(case, "LAMMPS", _grid(case))
         res = libroute.run_potable([], txt)
         if res["rc"] != 0 or res["out"] is None:
             raise CliFailed("rc=%r stderr=%s" % (res["rc"], res["stderr"][-600:]))
@@ -183,6 +209,62 @@ def verify_text(case, out, route_kind, ctx=""):
     return v, stats
 
 
+class _Scaled(object):
+    """stateful energy callable: k * f(r), k re-assignable between writes"""
+
+    def __init__(self, f):
+        self.f, self.k = f, 1.0
+
+    def __call__(self, r):
+        return self.k * self.f(r)
+
+
+class _ScaledD(_Scaled):
+    def deriv(self, r):
+        return self.k * self.f.deriv(r)
+
+
+def _scaled_case(case, which, k):
+    c = dict(case)
+    pair = [list(x) for x in case["pair"]]
+    const = {"ranges": [{"m": None, "s": 0.0, "body": {"k": "form", "name": "constant", "p": [k]}}]}
+    pair[which][2] = {"ranges": [{"m": None, "s": 0.0, "body": {"k": "mod", "m": "product", "args": [const, pair[which][2]]}}]}
+    c["pair"] = pair
+    return c
+
+
+def check_rewrite(case, cls):
+    rw = case["rewrite"]
+    cls = cls + ["rewrite:%d_writes" % len(rw["ks"])]
+    pots = pairtab.api_potentials(case)
+    a, b, pd = case["pair"][rw["which"]]
+    f = pots[rw["which"]].potentialFunction
+    holder = (_ScaledD if hasattr(f, "deriv") else _Scaled)(f)
+    pots[rw["which"]] = ap.Potential(a, b, holder)
+    tab = LAMMPS_PairTabulation(pots, case["cutoff"], case["nr"])
+    v, nt = [], False
+    for n, k in enumerate(rw["ks"]):
+        holder.k = k
+        cc = _scaled_case(case, rw["which"], k)
+        ctx = "write number %d of one tabulation object, %s-%s energy callable re-parametrised to k=%r before it\n%s" % (
+            n + 1, a, b, k, pairtab.potable_text(cc, "LAMMPS", {"cutoff": case["cutoff"], "nr": case["nr"]}))
+        fp = io.StringIO()
+        try:
+            tab.write(fp)
+        except Exception as e:
+            return {"v": [("rewrite:exception:%s@%s" % (type(e).__name__, libroute.innermost_atsim_frame(e)), "%r\n%s" % (e, ctx))],
+                    "cls": cls, "nt": False}
+        try:
+            vv, stats = verify_text(cc, fp.getvalue(), "api", ctx)
+        except DomainError:
+            return {"v": [], "cls": cls, "nt": False, "skip": True}
+        v += [("rewrite:" + bk if n else bk, d) for bk, d in vv]
+        nt = nt or (n > 0 and stats["nontrivial"])
+        if v:
+            break
+    return {"v": v, "cls": cls, "nt": nt}
+
+
 def check_case(case):
     cls = ["route:" + case["route"], "blocks=%d" % len(case["pair"])]
     if case["route"] == "writePotentials":
@@ -193,6 +275,8 @@ def check_case(case):
         cls.append("blocks>=2")
     if case["nr"] > 60:
         cls.append("nr>60")
+    if case.get("given", "both") != "both":
+        cls.append("defaults:" + case["given"] + "_given")
     rk = "api" if case["route"] not in ("potable", "cli") else "potable"
     if any(pairtab.has_numeric(pd, rk) for _, _, pd in case["pair"]):
         cls.append("force:numeric_fallback")
@@ -208,6 +292,8 @@ def check_case(case):
                 pairtab.ref_row(ref, pairtab.for_route(pd, rk), (i + 1) * dr, order=0)
     except (DomainError, OverflowError, ZeroDivisionError):
         return {"v": [], "cls": cls, "nt": False, "skip": True}
+    if case.get("rewrite"):
+        return check_rewrite(case, cls)
     try:
         out, txt = produce(case)
     except Exception as e:
